@@ -97,6 +97,8 @@ pub fn analyse(case: &LoopCase, result: &Result<(), String>, d: &Driver, sel: u3
   let mut i = 0usize;
   let n = calls.len();
   let mut reads_this_wakeup = 0u32;
+  // step outputs the loop still owes: (events, the keyboard event, read after a tablet event?)
+  let mut expected_q: std::collections::VecDeque<(Vec<Event>, Event, bool)> = std::collections::VecDeque::new();
   let fail = |prop: u32, kind: &str, detail: String| -> Result<(), (u32, Violation)> { Err((prop, Violation::new(kind, detail))) };
   while i < n {
     let c = &calls[i];
@@ -153,7 +155,7 @@ pub fn analyse(case: &LoopCase, result: &Result<(), String>, d: &Driver, sel: u3
               facts.spurious_timeouts += 1;
             }
             // an immediately following send is a timer chord
-            let next_is_send = i + 1 < n && matches!(calls[i + 1].kind, CallKind::Send { .. }) && !calls[i + 1].failed;
+            let next_is_send = expected_q.is_empty() && i + 1 < n && matches!(calls[i + 1].kind, CallKind::Send { .. }) && !calls[i + 1].failed;
             let chord_allowed = pending.is_some() && !tablet_mode;
             if next_is_send {
               let evs = match &calls[i + 1].kind {
@@ -236,59 +238,22 @@ pub fn analyse(case: &LoopCase, result: &Result<(), String>, d: &Driver, sel: u3
             if reads_this_wakeup == 2 {
               facts.multi_event_wakeups += 1;
             }
-            let next_send: Option<Vec<Event>> = if i + 1 < n && !calls[i + 1].failed {
-              match &calls[i + 1].kind {
-                CallKind::Send { evs } => Some(evs.clone()),
-                _ => None,
-              }
-            } else {
-              None
-            };
-            let next_failed_send = i + 1 < n && calls[i + 1].failed && matches!(calls[i + 1].kind, CallKind::Send { .. });
             if tablet_mode {
-              if let Some(evs) = &next_send {
-                if sel & P12 != 0 {
-                  return fail(12, "write-in-tablet-mode", format!("call {}: send [{}] for keyboard event {} while tablet mode is on", i + 1, evs_text(evs), ev_text(ev)));
-                }
-                fold_events(&mut out, evs);
-                facts.sends += 1;
-                i += 2;
-                continue;
-              }
+              // read but not mapped; any write is caught at the Send call
               i += 1;
               continue;
             }
             let r = twin.step(ev.clone());
-            let expect = r.events.clone();
-            let check_sends = (sel & P10 != 0 && !tablet_seen) || (sel & P12 != 0 && tablet_seen);
-            let prop = if tablet_seen { 12 } else { 10 };
-            match (&next_send, expect.is_empty()) {
-              (Some(evs), false) => {
-                if check_sends && *evs != expect {
-                  return fail(prop, "wrong-output-for-step", format!("call {}: keyboard event {} was answered with send [{}], the mapper's output for it is [{}]{}", i + 1, ev_text(ev), evs_text(evs), evs_text(&expect), if tablet_seen { " (fresh mapper since the last tablet-mode change)" } else { "" }));
-                }
-                fold_events(&mut out, evs);
-                facts.sends += 1;
-              }
-              (Some(evs), true) => {
-                if check_sends {
-                  return fail(prop, "unexpected-write", format!("call {}: keyboard event {} was answered with send [{}], the mapper's output for it is empty", i + 1, ev_text(ev), evs_text(evs)));
-                }
-                fold_events(&mut out, evs);
-                facts.sends += 1;
-              }
-              (None, false) => {
-                if check_sends && !next_failed_send && !(i + 1 >= n && result.is_err()) {
-                  return fail(prop, "step-output-not-written", format!("call {}: keyboard event {} should be answered with send [{}] but the next driver call is {}", i, ev_text(ev), evs_text(&expect), if i + 1 < n { call_text(&calls[i + 1]) } else { "none".to_string() }));
-                }
-              }
-              (None, true) => {}
+            if !r.events.is_empty() {
+              // the loop owes this write: exactly once, in order (not necessarily before the
+              // next read - the property does not say so)
+              expected_q.push_back((r.events.clone(), ev.clone(), tablet_seen));
             }
-            // repeat bookkeeping for C11
+            // repeat bookkeeping for C11: the loop computes the deadline somewhere between the
+            // return of this read and its next poll
             match r.repeat {
               ResultingRepeat::Repeating { keys, delay_ms, interval_ms } => {
-                let after = if next_send.is_some() { i + 2 } else { i + 1 };
-                let fire_hi = if after < n { Some(calls[after].t_entry) } else { None };
+                let fire_hi = calls[i + 1..].iter().find(|c| matches!(c.kind, CallKind::Poll { .. })).map(|c| c.t_entry);
                 pending = Some(Pending { keys, delay_ms, interval_ms, fire_lo: c.t_ret, fire_hi, chords_sent: 0 });
                 last_ignored = false;
               }
@@ -302,11 +267,17 @@ pub fn analyse(case: &LoopCase, result: &Result<(), String>, d: &Driver, sel: u3
                 }
               }
             }
-            i += if next_send.is_some() { 2 } else { 1 };
+            i += 1;
             continue;
           }
           Some(VNext::End) => {
-            // nothing may follow
+            // nothing may follow, and nothing may still be owed
+            if let Some((evs, ev, after_tablet)) = expected_q.front() {
+              let chk = (sel & P10 != 0 && !*after_tablet) || (sel & P12 != 0 && *after_tablet);
+              if chk && d.fail_at.is_none() {
+                return fail(if *after_tablet { 12 } else { 10 }, "step-output-not-written", format!("call {}: the keyboard reported end of device but the output [{}] for keyboard event {} was never written", i, evs_text(evs), ev_text(ev)));
+              }
+            }
             if sel & P10 != 0 {
               if i + 1 < n {
                 return fail(10, "call-after-end-of-device", format!("call {}: after next_keyboard returned End the loop still called {}", i + 1, call_text(&calls[i + 1])));
@@ -333,6 +304,13 @@ pub fn analyse(case: &LoopCase, result: &Result<(), String>, d: &Driver, sel: u3
             if on && (!out.is_empty() || pending.is_some()) {
               facts.on_with_output_or_repeat += 1;
             }
+            if let Some((evs, ev, after_tablet)) = expected_q.front() {
+              let chk = (sel & P10 != 0 && !*after_tablet) || (sel & P12 != 0 && *after_tablet);
+              if chk {
+                return fail(if *after_tablet { 12 } else { 10 }, "step-output-not-written", format!("call {}: a tablet-mode event is handled although the output [{}] for keyboard event {} has not been written", i, evs_text(evs), ev_text(ev)));
+              }
+            }
+            expected_q.clear();
             // the release batch: the run of writes directly after the tablet event (the property
             // says "released immediately", not "in one write")
             let mut j = i + 1;
@@ -380,16 +358,41 @@ pub fn analyse(case: &LoopCase, result: &Result<(), String>, d: &Driver, sel: u3
         }
       }
       CallKind::Send { evs } => {
-        // a send that is not directly after a keyboard read, a tablet read or a time-out
+        // a write that is neither a timer chord nor a tablet release batch: it must be the next
+        // owed step output
         if !c.failed {
-          let prop = if sel & P12 != 0 && tablet_mode { 12 } else if sel & P11 != 0 { 11 } else if sel & P10 != 0 { 10 } else { 0 };
-          if prop != 0 {
-            return fail(prop, "unattributed-write", format!("call {}: send [{}] is not the answer to a keyboard event, a tablet-mode event or a time-out", i, evs_text(evs)));
+          if tablet_mode {
+            if sel & P12 != 0 {
+              return fail(12, "write-in-tablet-mode", format!("call {}: send [{}] while tablet mode is on", i, evs_text(evs)));
+            }
+          } else {
+            match expected_q.pop_front() {
+              Some((expect, ev, after_tablet)) => {
+                let chk = (sel & P10 != 0 && !after_tablet) || (sel & P12 != 0 && after_tablet);
+                if chk && *evs != expect {
+                  return fail(if after_tablet { 12 } else { 10 }, "wrong-output-for-step", format!("call {}: send [{}], but the next owed output is [{}] for keyboard event {}{}", i, evs_text(evs), evs_text(&expect), ev_text(&ev), if after_tablet { " (fresh mapper since the last tablet-mode change)" } else { "" }));
+                }
+              }
+              None => {
+                let prop = if sel & P11 != 0 { 11 } else if sel & P10 != 0 && !tablet_seen { 10 } else if sel & P12 != 0 && tablet_seen { 12 } else { 0 };
+                if prop != 0 {
+                  return fail(prop, "unattributed-write", format!("call {}: send [{}] is neither an owed step output, nor a tablet release batch, nor a timer chord", i, evs_text(evs)));
+                }
+              }
+            }
           }
           fold_events(&mut out, evs);
           facts.sends += 1;
         }
         i += 1;
+      }
+    }
+  }
+  if d.fail_at.is_none() && result.is_ok() {
+    if let Some((evs, ev, after_tablet)) = expected_q.front() {
+      let chk = (sel & P10 != 0 && !*after_tablet) || (sel & P12 != 0 && *after_tablet);
+      if chk {
+        return fail(if *after_tablet { 12 } else { 10 }, "step-output-not-written", format!("the loop returned but the output [{}] for keyboard event {} was never written", evs_text(evs), ev_text(ev)));
       }
     }
   }
@@ -965,9 +968,10 @@ pub fn run_c20_case(c: &LoopCase, stats: Option<&mut Stats>, sample_src: Option<
     }
     if d.calls_after_fault > 0 {
       let idx = failing_call.unwrap_or(0);
-      let later: Vec<String> = d.calls[idx + 1..].iter().map(call_text).collect();
-      let kind = if d.calls[idx + 1..].iter().any(|c| matches!(c.kind, CallKind::Send { .. })) { "write-after-failure" } else { "call-after-failure" };
-      return Err(Violation::new(kind, format!("call #{} ({}) failed but the loop went on with: {} | trace: {}", k, what, later.join("; "), trace_text(&d.calls).join("; "))));
+      if d.calls[idx + 1..].iter().any(|c| matches!(c.kind, CallKind::Send { .. })) {
+        let later: Vec<String> = d.calls[idx + 1..].iter().map(call_text).collect();
+        return Err(Violation::new("write-after-failure", format!("call #{} ({}) failed but the loop went on and wrote to the virtual keyboard: {} | trace: {}", k, what, later.join("; "), trace_text(&d.calls).join("; "))));
+      }
     }
     let sends: Vec<Vec<Event>> = d.calls.iter().filter_map(|c| match &c.kind { CallKind::Send { evs } if !c.failed => Some(evs.clone()), _ => None }).collect();
     if sends.len() > sends0.len() || sends[..] != sends0[..sends.len()] {
